@@ -397,7 +397,25 @@ func ruleNAccess(c *engine.Context) *report.Rule {
 				return false
 			}
 			if b != ev {
-				return false
+				// a copy made for the accessor: a cell assigned exactly once, with the emitter's
+				// variable as it stands (that variable is judged like a captured one below)
+				al, isAl := b.(*ssa.Alloc)
+				if !isAl || storesTo(al) != 1 || storedInLoopOutsideAlloc(al) {
+					return false
+				}
+				var src ssa.Value
+				for _, ref := range *al.Referrers() {
+					if st, ok := ref.(*ssa.Store); ok && st.Addr == ssa.Value(al) {
+						src = st.Val
+					}
+				}
+				if src == nil || (varOf(src) != ev && src != inEmitter) {
+					return false
+				}
+				if eal, ok := ev.(*ssa.Alloc); ok && (storesTo(eal) != 1 || storedInLoopOutsideAlloc(eal)) {
+					return false
+				}
+				return true
 			}
 			if al, isAl := b.(*ssa.Alloc); isAl && (storesTo(al) != 1 || storedInLoopOutsideAlloc(al)) {
 				fail("captured variable %s is reassigned after the accessor captured it (one variable shared by all iterations: every accessor would address the last value)", al.Comment)
